@@ -83,7 +83,7 @@ def is_atomic_vector(value: Any) -> bool:
     not represent any vector operation, such as `VectorCross`.
     """
 
-    return isinstance(value, (VectorSymbol, AppliedVectorFunction))
+    return isinstance(value, (VectorSymbol, AppliedVectorFunction, VectorDerivative))
 
 
 @cacheit
@@ -713,7 +713,9 @@ class VectorMixedProduct(Expr):  # type: ignore[misc]
             return SymDerivative(self, symbol, evaluate=False)
 
         a, b, c = self.args
-        return VectorDot(a, VectorCross(b, c)).diff(symbol)
+
+        return (VectorMixedProduct(a.diff(symbol), b, c) + VectorMixedProduct(a, b.diff(symbol), c) +
+            VectorMixedProduct(a, b, c.diff(symbol)))
 
 
 class AppliedVectorFunction(sym_fn.Application, VectorExpr):  # type: ignore[misc]
